@@ -221,7 +221,7 @@ fn shard(seed: u64, shard: u64, shards: u64, tier: Tier) -> Tally {
         }
     }
     // random days in years 1–9999, random region/service shapes
-    for i in 0..tier.n(8000, 120_000) {
+    for i in 0..tier.n(8000, 1_000_000) {
         let mut r = Rng::keyed(seed, "C06", "random", shard, i);
         let y = r.range(1, 9999) as i32;
         let m = r.range(1, 12) as u32;
